@@ -142,6 +142,9 @@ package controller
 // Ghost view of the kubernetes bindings controller: how often the snapshot of a binding was
 // fetched and what the latest fetch returned.
 //@ ghost snapCount map[string]int
+// the contexts handed to the latest UpdateSnapshots and its result (C12: what goes into the hook's context file)
+//@ ghost lastRefreshIn []bctx.BindingContext
+//@ ghost lastRefreshOut []bctx.BindingContext
 //@ ghost snapOf map[string][]kemtypes.ObjectAndFilterResult
 //@ trusted func KubernetesBindingsController.SnapshotsFor
 //@   modifies snapCount, snapOf
@@ -164,9 +167,9 @@ package controller
 // names; contexts keep their order and identity.
 //@ func (*HookController).UpdateSnapshots
 //@   prop C02, C12
-//@   modifies snapCount, snapOf, hook.lastRefreshIn, hook.lastRefreshOut
-//@   ghostset hook.lastRefreshIn := context
-//@   ghostset hook.lastRefreshOut := result
+//@   modifies snapCount, snapOf, lastRefreshIn, lastRefreshOut
+//@   ghostset lastRefreshIn := context
+//@   ghostset lastRefreshOut := result
 //@   let c0 := old(snapCount)
 //@   ensures [no-kubernetes]  hc.KubernetesController == nil ==> result == context
 //@   ensures [length]         hc.KubernetesController != nil ==> len(result) == len(context)
